@@ -140,3 +140,28 @@ pub fn show<S: BDDSymbol>(b: &BDD<S>) -> String {
         BDD::Choice(t, v, f) => format!("({} ? {} : {})", v, show(t), show(f)),
     }
 }
+
+/// structural equality decided here (not through the subject's `PartialEq for BDD`); symbols
+/// are compared with `eq`
+pub fn same_by<S: BDDSymbol>(a: &BDD<S>, b: &BDD<S>, eq: &dyn Fn(&S, &S) -> bool) -> bool {
+    // iterative: the diagrams compared with this can be hundreds of levels deep
+    let mut work: Vec<(&BDD<S>, &BDD<S>)> = vec![(a, b)];
+    let mut seen: rustc_hash::FxHashSet<(*const BDD<S>, *const BDD<S>)> = rustc_hash::FxHashSet::default();
+    while let Some((x, y)) = work.pop() {
+        if !seen.insert((x as *const _, y as *const _)) {
+            continue;
+        }
+        match (x, y) {
+            (BDD::True, BDD::True) | (BDD::False, BDD::False) => {}
+            (BDD::Choice(t1, v1, f1), BDD::Choice(t2, v2, f2)) => {
+                if !eq(v1, v2) {
+                    return false;
+                }
+                work.push((t1.as_ref(), t2.as_ref()));
+                work.push((f1.as_ref(), f2.as_ref()));
+            }
+            _ => return false,
+        }
+    }
+    true
+}
